@@ -130,6 +130,7 @@ type FnVC struct {
 	retCnt        int
 	panicCnt      int
 	deferred      []*ssa.Defer
+	panicSite     string // non-empty while the exceptional path of a call is translated
 	allocPos      map[token.Pos]*ssa.Alloc
 	safetyAssumed int
 	behavClause   bool
